@@ -142,7 +142,9 @@ func (e *Engine) AddSingleAssertionConflict(trigger annotation.FullTrigger) {
 	flow := nilFlow{}
 	flow.addNonNilPathNode(producer, consumer)
 
-	position := e.pass.Fset.Position(trigger.Consumer.Expr.Pos())
+	// Use the physical position (i.e., not adjusted by "//line" directives), like the positions of
+	// the overconstraint conflicts (see [inference.primitivizer.toPosition]) and the nolint ranges.
+	position := e.pass.Fset.PositionFor(trigger.Consumer.Expr.Pos(), false /* adjusted */)
 	// Try to trim the build system prefix (i.e., the current working directory) if present.
 	position.Filename = tokenhelper.RelToCwd(position.Filename)
 	e.conflicts = append(e.conflicts, conflict{
